@@ -223,6 +223,10 @@ def simplify_math_iterators(source: str) -> str:
     )
 
     for node in core.walk(root, template):
+        if node.func.id != "sum":
+            # len() of a collection is the number of its elements, not their sum
+            continue
+
         arg = node.args[0]
         if core.match_template(arg, ast.Call(func=ast.Name(id="range"))):
             if any((node is not arg for node in core.walk(arg, (ast.Attribute, ast.Call)))):
@@ -238,6 +242,11 @@ def simplify_math_iterators(source: str) -> str:
                 core.match_template(node.func, ast.Name(id="range"))
                 for node in core.walk(arg, ast.Call)
             ):
+                continue
+            if not arg.elts or not all(
+                isinstance(constant.value, (int, float)) for constant in core.walk(arg, ast.Constant)
+            ):
+                # Nothing to add up, or something that is not a number
                 continue
             yield node, _sum_constants(arg.elts)
 
